@@ -463,6 +463,9 @@ func (d *DB) UpdateVerdict(s Stmt) (ErrKind, error) {
 
 func (d *DB) Apply(s Stmt) (ErrKind, error) {
 	switch s.Kind {
+	case "use":
+		// USE of the database that is selected already (whatever the letter case): changes nothing
+		return OK, nil
 	case "create":
 		if _, ok := d.Tables[s.Table]; ok {
 			return ErrTableExists, nil
